@@ -31,6 +31,8 @@ struct thr {
     int spin;
     int same_loads;
     int joined;
+    uint64_t loc; /* abstract control location: call-site chain + pending operation + harness tag */
+    uint64_t tag;
 };
 
 #define VS_MAXMUTEX 8192
@@ -44,6 +46,7 @@ static int nM, nCV;
 static int cvwaits;
 static int consec;     /* consecutive steps of the same thread while others were runnable */
 static int (*quiescence_cb)(void);
+static uint64_t (*state_cb)(void);
 static __thread int self_tid;
 
 #define FAIR_LIMIT 400
@@ -93,6 +96,49 @@ static void end_execution(int status) {
     _exit(status == VS_QUIESCENT_OK ? 0 : abnormal_exit_code);
 }
 
+static uint64_t mix64(uint64_t h, uint64_t v) {
+    h ^= v + 0x9E3779B97F4A7C15ull + (h << 6) + (h >> 2);
+    h *= 0xff51afd7ed558ccdull;
+    return h ^ (h >> 29);
+}
+
+/* hash of the return-address chain of the calling thread (frame pointers; all code is built with
+ * -fno-omit-frame-pointer).  Identifies the call site of the pending synchronisation operation and its callers. */
+extern char __executable_start, etext; /* linker-provided bounds of the executable's text */
+static uint64_t backtrace_hash(void) {
+    uint64_t h = 1469598103934665603ull;
+    void** fp = (void**)__builtin_frame_address(0);
+    void** base = fp;
+    for (int n = 0; n < 12 && fp; ++n) {
+        void* ret = fp[1];
+        /* stop at the first frame outside the executable (libc's thread start routine etc. keep no frame pointers) */
+        if ((char*)ret < &__executable_start || (char*)ret >= &etext) break;
+        h = mix64(h, (uint64_t)(uintptr_t)ret);
+        void** next = (void**)fp[0];
+        if (next <= fp || (char*)next > (char*)base + (1 << 19) || ((uintptr_t)next & 7)) break;
+        fp = next;
+    }
+    return h;
+}
+
+static void note_loc(int kind, int obj) {
+    if (!active || !SH->user[4]) return;
+    int me = cur;
+    T[me].loc = mix64(mix64(mix64(backtrace_hash(), (uint64_t)kind), (uint64_t)(obj + 1)), T[me].tag);
+}
+
+static uint64_t global_state_hash(void) {
+    uint64_t h = mix64(0x1234567, (uint64_t)cur);
+    for (int t = 0; t < nT; ++t) {
+        h = mix64(h, (uint64_t)T[t].state * 131 + (uint64_t)(T[t].obj + 1));
+        h = mix64(h, T[t].state == T_DONE ? 0 : T[t].loc);
+        h = mix64(h, (uint64_t)(T[t].spin * 4 + (T[t].same_loads > 2 ? 2 : T[t].same_loads)));
+    }
+    for (int m = 0; m < nM; ++m) h = mix64(h, (uint64_t)(M[m].held ? M[m].owner + 1 : 0));
+    if (state_cb) h = mix64(h, state_cb());
+    return h ? h : 1;
+}
+
 static int take_choice(int nopt, int altcost, int kind, const int* opts) {
     if (SH->user[2]) return 0; /* default-schedule runs: nothing is recorded, always the default */
     int idx = SH->npoints;
@@ -112,6 +158,7 @@ static int take_choice(int nopt, int altcost, int kind, const int* opts) {
     p->altcost = (unsigned char)altcost;
     p->kind = (unsigned char)kind;
     for (int i = 0; i < VS_MAXOPT; ++i) p->tids[i] = i < nopt ? (unsigned char)opts[i] : 255;
+    p->state = SH->user[4] ? global_state_hash() : 0;
     SH->npoints = idx + 1;
     return c;
 }
@@ -212,6 +259,10 @@ void vs_end(void) {
 
 int vs_active(void) { return active; }
 void vs_set_quiescence_cb(int (*cb)(void)) { quiescence_cb = cb; }
+void vs_set_state_cb(uint64_t (*cb)(void)) { state_cb = cb; }
+void vs_set_tag(uint64_t tag) {
+    if (active) T[cur].tag = tag;
+}
 int vs_self(void) { return self_tid; }
 int vs_nthreads(void) { return nT; }
 long vs_steps(void) { return SH ? SH->nsteps : 0; }
@@ -230,6 +281,7 @@ static void* thread_main(void* p) {
 }
 
 int vs_thread_create(void (*fn)(void*), void* arg) {
+    note_loc(10, nT);
     point();
     if (nT >= VS_MAXT) {
         vs_fail("harness/too-many-threads", "VS_MAXT exceeded");
@@ -240,6 +292,9 @@ int vs_thread_create(void (*fn)(void*), void* arg) {
     T[t].arg = arg;
     T[t].baton = 0;
     T[t].joined = 0;
+    T[t].loc = mix64(77, (uint64_t)t);
+    T[t].tag = 0;
+    T[t].same_loads = 0;
     nT++;
     SH->nthreads_created++;
     pthread_attr_t at;
@@ -257,6 +312,7 @@ int vs_thread_done(int tid) { return T[tid].state == T_DONE; }
 
 void vs_thread_join(int tid) {
     int me = cur;
+    note_loc(11, tid);
     point();
     while (T[tid].state != T_DONE) {
         T[me].state = T_BLK_JOIN;
@@ -278,6 +334,7 @@ int vs_mutex_new(void) {
 
 void vs_mutex_lock(int m) {
     if (!active) return;
+    note_loc(1, m);
     point();
     int me = cur;
     while (M[m].held) {
@@ -291,6 +348,7 @@ void vs_mutex_lock(int m) {
 
 int vs_mutex_trylock(int m) {
     if (!active) return 1;
+    note_loc(2, m);
     point();
     if (M[m].held) return 0;
     M[m].held = 1;
@@ -317,11 +375,13 @@ static void post_point(void) {
 void vs_mutex_unlock(int m) {
     if (!active) return;
     release_mutex(m);
+    note_loc(3, m);
     post_point();
 }
 
 void vs_atomic_written(void) {
     if (!active) return;
+    note_loc(9, 0);
     post_point();
 }
 
@@ -329,6 +389,7 @@ int vs_cv_new(void) { return nCV++; }
 
 void vs_cv_wait(int cv, int m) {
     if (!active) return;
+    note_loc(4, cv);
     point();
     int me = cur;
     int spurious = (SH->spurious_at >= 0 && cvwaits == SH->spurious_at);
@@ -352,6 +413,7 @@ void vs_cv_wait(int cv, int m) {
 
 void vs_cv_notify_one(int cv) {
     if (!active) return;
+    note_loc(5, cv);
     point();
     int w[VS_MAXT], n = 0;
     for (int t = 0; t < nT; ++t)
@@ -364,6 +426,7 @@ void vs_cv_notify_one(int cv) {
 
 void vs_cv_notify_all(int cv) {
     if (!active) return;
+    note_loc(6, cv);
     point();
     for (int t = 0; t < nT; ++t)
         if (T[t].state == T_BLK_CV && T[t].obj == cv) T[t].state = T_RUNNABLE;
@@ -371,6 +434,7 @@ void vs_cv_notify_all(int cv) {
 
 void vs_atomic_point(const void* addr, int is_load) {
     if (!active) return;
+    note_loc(is_load ? 7 : 8, 0);
     int me = cur;
     int kind = VS_K_NORMAL;
     if (T[me].spin) {
@@ -400,6 +464,7 @@ void vs_atomic_loaded(const void* addr, uint64_t val) {
 
 void vs_yield(void) {
     if (!active) return;
+    note_loc(12, 0);
     int me = cur;
     T[me].last_valid = 0;
     T[me].spin = 0;
